@@ -625,7 +625,7 @@ func c20Explore(c *Ctx, env *c20Env, sc c20Scenario, bound int, prune bool) {
 	var first []int
 	firstOrder := ""
 	nondet := false
-	stats := explore.Run(explore.Config{MaxCost: bound, Prune: prune, Deadline: c.Deadline, TolerateDivergence: true}, func(x *explore.Exec, own bool) {
+	stats := explore.Run(explore.Config{Stop: schedStuck, MaxCost: bound, Prune: prune, Deadline: c.Deadline, TolerateDivergence: true}, func(x *explore.Exec, own bool) {
 		res := c20Exec(env, sc, x, prune)
 		if x.Diverged {
 			c.Inc("executions_whose_replayed_prefix_did_not_reproduce")
